@@ -204,12 +204,13 @@ def main(run):
     tier = run.tier
     rng = random.Random(run.seed)
     lat = [p for p in lattice.prec_lattice(tier) if p["family"] in ("F-prec", "F-choice", "F-nest")]
+    reg = [p for p in lattice.regress_lattice()]
     if tier == "quick":
-        bases = lat[::14] + ktree.generate(run.seed + 2100, 14)
+        bases = reg + lat[::14] + ktree.generate(run.seed + 2100, 14)
         n_states, n_seq = 3, 2
         bases += colliding_bases(lat[::6] + ktree.generate(run.seed + 2100, 60))[:12]
     else:
-        bases = lat[::2] + ktree.generate(run.seed + 2100, 300)
+        bases = reg + lat[::2] + ktree.generate(run.seed + 2100, 300)
         n_states, n_seq = 6, 3
         bases += colliding_bases(bases)
     progs = []
@@ -300,7 +301,7 @@ def main(run):
             run.report(
                 "%s (%s, focus %s, policy %s, edits %s): %s vs %s" % (tag, case["meta"]["label"], case["meta"]["focus"], case["policy"], case["edits"], a, bb),
                 {"kconfig_old": p["old_text"], "kconfig_new": p["text"], "file": case["file_text"], "policy": case["policy"], "edits": case["edits"], "clause": tag, "expected": a, "observed": bb, "meta": case["meta"]},
-                {tag, case["meta"]["label"]},
+                {tag, case["meta"]["label"]} | order_tags(p["prog"], tag, a, bb),
             )
     run.cov["traces_validated_against_impl"] = total - len(bad)
     run.cov["design_level_counterexamples"] = design
@@ -320,6 +321,46 @@ def main(run):
         "which mismatches are reported is compared only for the option whose own definition was mutated",
         "a stored default outside the new active range is left open (kept-if-in-range is all that is required)",
     ]
+
+
+def order_tags(prog, tag, a, b):
+    """Mechanism tag of the open finding C08-resolution-order: every option on which specification and
+    implementation differ is read by a reverse property (select / imply / set / set default: its target, or an
+    option its condition mentions) of an option which that option's own value depends on the other way round, so
+    the loader compared its stored default before the other option's stored default had been resolved."""
+    if tag not in ("R-load", "R-edits", "R-reported", "R-marks"):
+        return set()
+    names = ktree.sym_names(prog)
+
+    def flat(x):
+        return flat(x[0]) + flat(x[-1]) if x and isinstance(x[0], list) and isinstance(x[0][0] if x[0] else None, list) else x
+
+    rows_a = a if a and isinstance(a[0], list) else [a]
+    rows_b = b if b and isinstance(b[0], list) else [b]
+    diff = set()
+    for ra, rb in zip(rows_a, rows_b):
+        if isinstance(ra, list) and isinstance(rb, list) and len(ra) == len(rb) == len(names):
+            diff |= {names[k] for k in range(len(names)) if ra[k] != rb[k]}
+    if not diff:
+        return set()
+    read_by_rev = {}
+    for e in ktree.walk(prog):
+        if e["k"] != "config":
+            continue
+        for field in ("selects", "implies", "sets", "wsets"):
+            for r in e[field]:
+                for n in {r["t"]} | ktree.strings_of(r["c"], set()):
+                    read_by_rev.setdefault(n, set()).add(e["name"])
+
+    def mentions(entry_name):
+        out = set()
+        for e in ktree.walk(prog):
+            if e["k"] == "config" and e["name"] == entry_name:
+                out |= ktree.strings_of({k: v for k, v in e.items() if k in ("prompt", "dep", "defaults", "ranges")}, set())
+        return out
+
+    ok = all(any(y in mentions(d) or d in {r["t"] for e in ktree.walk(prog) if e["k"] == "config" and e["name"] == y for f in ("sets", "wsets", "selects", "implies") for r in e[f]} for y in read_by_rev.get(d, ())) for d in diff)
+    return {"resolution-order-reverse-property"} if ok else set()
 
 
 def _strip_marked(text, only=None):
